@@ -38,7 +38,8 @@ def run(tier):
                 ("p64rand", {"kind": "periodic", "period": [rng.randrange(256) for _ in range(64)], "len": -1}),
                 ("p17", {"kind": "periodic", "period": [rng.randrange(256) for _ in range(17)], "len": -1})]
     for name, st in big:
-        for fn in (["PowerOnDetectFast", "FactoryDetectFast"] + (["PowerOnDetect", "FactoryDetect"] if thorough else [])):
+        # the sequential 10^6-bit workflows cost 24 s / 60 s per stream: one stream in quick, all in thorough
+        for fn in (["PowerOnDetectFast", "FactoryDetectFast"] + (["PowerOnDetect", "FactoryDetect"] if (thorough or name == "const00") else [])):
             jid += 1
             j = wf.mkjob(jid, fn, mode="real", stream=st, policy="fixed", size=65536, rseed=jid, tag=name, timeout_ms=600000)
             j["mustreject"] = True
